@@ -1099,6 +1099,58 @@ Theorem pure_in_validators_and_rng : forall st stakes sm1 sm2 s,
 Proof. intros st stakes sm1 sm2 s H1 H2. rewrite H1 in H2. inversion H2. reflexivity. Qed.
 
 (* ------------------------------------------------------------------ *)
+(* one instance used through both traits: committees do not depend on its history *)
+(* ------------------------------------------------------------------ *)
+Definition quorum_out (r : res (list N * list N)) : res (list N) :=
+  match r with Ok (q, _) s => Ok q s | Panic => Panic | Starved => Starved end.
+
+(* a fresh instance (all counters zero) is what `sample_quorum` of the model describes *)
+Lemma quorum_from_fresh : forall sm s, quorum_out (sample_quorum_from sm (fresh_counts sm) s) = sample_quorum sm s.
+Proof.
+  intros sm s. destruct sm; cbn [sample_quorum_from fresh_counts quorum_out];
+    try (match goal with |- context [sample_quorum ?x s] => destruct (sample_quorum x s) end; reflexivity).
+  cbn [sample_quorum]. destruct (decay_quorum _ _ _ _ s); reflexivity.
+Qed.
+
+(* sample_quorum leaves every counter at zero, whatever state it started from (it ends with reset()) *)
+Theorem counters_zero_after_quorum : forall sm counts s q c r,
+  sample_quorum_from sm counts s = Ok (q, c) r ->
+  match sm with SmDecay _ _ _ => c = fresh_counts sm | _ => c = counts end.
+Proof.
+  intros sm counts s q c r H. destruct sm; cbn [sample_quorum_from] in H;
+    try (match type of H with context [sample_quorum ?x s] => destruct (sample_quorum x s) end; inversion H; reflexivity).
+  destruct (decay_quorum _ _ _ _ s); inversion H. reflexivity.
+Qed.
+
+(* the stateless samplers ignore the state altogether *)
+Lemma quorum_stateless : forall sm c s, fresh_counts sm = [] -> (forall ws m k, sm <> SmDecay ws m k) ->
+  quorum_out (sample_quorum_from sm c s) = sample_quorum sm s.
+Proof.
+  intros sm c s _ Hnd. destruct sm; cbn [sample_quorum_from quorum_out];
+    try (match goal with |- context [sample_quorum ?x s] => destruct (sample_quorum x s) end; reflexivity).
+  exfalso. eapply Hnd. reflexivity.
+Qed.
+
+(* hence: whatever was done with an instance before (single draws, quorums, from any counter state), the
+   committee drawn right after a completed sample_quorum is the committee a fresh instance draws from the same
+   random words ... *)
+Theorem quorum_after_quorum_is_fresh : forall sm counts s1 q1 c1 r1 s2,
+  sample_quorum_from sm counts s1 = Ok (q1, c1) r1 ->
+  quorum_out (sample_quorum_from sm c1 s2) = sample_quorum sm s2.
+Proof.
+  intros sm counts s1 q1 c1 r1 s2 H. pose proof (counters_zero_after_quorum _ _ _ _ _ _ H) as Hc.
+  destruct sm; try (subst c1; apply quorum_stateless; [reflexivity | intros; discriminate]).
+  rewrite Hc. apply quorum_from_fresh.
+Qed.
+(* ... and so is the committee drawn right after reset() *)
+Theorem quorum_after_reset_is_fresh : forall sm counts s,
+  quorum_out (sample_quorum_from sm (reset_counts sm counts) s) = sample_quorum sm s.
+Proof.
+  intros sm counts s. destruct sm; try (apply quorum_stateless; [reflexivity | intros; discriminate]).
+  cbn [reset_counts]. apply (quorum_from_fresh (SmDecay ws max_samples k)).
+Qed.
+
+(* ------------------------------------------------------------------ *)
 (* PartitionSampler::new always terminates                             *)
 (* ------------------------------------------------------------------ *)
 (* remaining stake (this validator's rest + everybody after it) fits the remaining bin capacity *)
